@@ -121,6 +121,8 @@ func resolveRB(p *Prog, r *Report) *rbInfo {
 }
 
 func runC10(p *Prog, r *Report) {
+	// R8: the weight restored at a membership change is the one configured last (shared with C02.R11)
+	checkConfiguredWeightFollows(p, r, "C10.R8")
 	// R6: the rebalancer's records and the wrapped balancer cannot drift apart: pool changes of the wrapped balancer under the rebalancer mutex, records own their URL (shared with C02.R6 / C02.R5)
 	r.Borrow(p, runC02, map[string]string{"C02.R6": "C10.R6", "C02.R5": "C10.R6", "C02.R4": "C10.R6"}, nil)
 	// R7: a panic in user-supplied code (a Meter) does not leave the rebalancer locked for ever (shared with C09.R8)
